@@ -4,7 +4,7 @@
 TIER="${1:-quick}"
 cd /verif
 for d in seeded/*/; do
-  n=$(basename $d); id=${n%[ab]}
+  n=$(basename $d); id=${n%[a-z]}
   extra=""; [ -f $d/also ] && extra=$(cat $d/also)
   line=$(tools/seed_run.sh $n $TIER $id $extra 2>&1 | tail -1)
   echo "$line"
